@@ -120,7 +120,7 @@ def plan(init, out, learned, uncovered, max_scripts, max_len=400):
     return scripts
 
 
-def run_session(exe, d, idx, calls, timeout=25):
+def run_session(exe, d, idx, calls, timeout=40):
     sf = os.path.join(d, "s%d.txt" % idx)
     tf = os.path.join(d, "s%d.ndjson" % idx)
     wd = os.path.join(d, "w%d" % idx)
@@ -222,10 +222,12 @@ def random_session(rng):
         elif r < 0.6:
             calls.append("%sanno %d %d %d %d %d %d" % (p, g, rng.choice(BIG), rng.choice([0, 1, 2, 3, 99, 255, 256, 65535]),
                                                       rng.choice([1, 1, 2, 3, 0, 4, 255, 256]), rng.choice([0, 1, 255]), rng.choice([0, 1, 5, 100, 5000])))
+            # (the threaded writer's queue holds 256 KiB here: every message of these sessions fits, so that no call
+            # has to wait out the 5 s send timeout)
         elif r < 0.7:
             calls.append("%sutc %d %d %d" % (p, g, rng.choice(BIG), rng.choice(BIG)))
         elif r < 0.8:
-            calls.append("%sud %d %d %d" % (p, rng.choice([0, 1, 4095, 4096, 65535]), rng.choice([0, 1, 2, 3, 4, 255]), rng.choice([0, 1, 10, 1000, 100000])))
+            calls.append("%sud %d %d %d" % (p, rng.choice([0, 1, 4095, 4096, 65535]), rng.choice([0, 1, 2, 3, 4, 255]), rng.choice([0, 1, 10, 1000, 100000 if p == "w" else 30000])))
         elif r < 0.88:
             calls.append("%somit %d %d" % (p, g, rng.choice([0, 1, 2147483647])))
         else:
@@ -272,6 +274,20 @@ def random_session(rng):
     return calls
 
 
+def directed_sessions():
+    """Definitions with very large blocks (a data chunk of up to 8 MB, larger than the reader's initial 1 MiB buffer)
+    holding only a partial block, read back sample-wise and through level-0 statistics (found by a random session:
+    jls_core_fsr_statistics converted samples_per_data entries of a chunk that held 808)."""
+    out = []
+    for p in ("w", "t"):
+        for dt in DTS[:13]:
+            for spd, n in ((1000000, 808), (300000, 1), (2147483647, 300)):
+                out.append([p + "open", p + "src 1", "%ssig 3 1 0 %d 1000 %d 7 65536 7 2 1000000" % (p, dt, spd),
+                            "%sfsr 3 0 %d" % (p, n), p + "close", "ropen 0", "rlen 3", "rstats 3 %d 8 3" % max(0, n // 8 - 3) ,
+                            "rstats 3 0 1 1", "rstats 3 0 %d 1" % n, "rfsr 3 0 %d" % n, "rfsrf32 3 0 %d" % n, "rclose", "copy 0"])
+    return out
+
+
 def run(tier):
     ck = C.Check("C10")
     rng = random.Random(C.seed() * 7919 + 10)
@@ -284,7 +300,7 @@ def run(tier):
 
     # 1. the session graph
     dot = os.path.join(sc, "misuse")
-    r = C.tlc("MisuseGen", "MisuseGen.cfg", workers=1, timeout=1500, heap="8g", args=["-dump", "dot,actionlabels", dot])
+    r = C.tlc("MisuseGen", "MisuseGen.cfg", workers=1, timeout=1500, heap="8g", args=["-fp", "0", "-dump", "dot,actionlabels", dot])
     if not ck.add_mc("MisuseGen (all sessions over the call alphabet)", r):
         raise C.ToolFailure("MisuseGen.tla is inconsistent: %s" % r.violated)
     init, out = parse_graph(dot + ".dot")
@@ -346,10 +362,10 @@ def run(tier):
     ncovered = len(pairs) - len(uncovered)
 
     # 3. random sessions with arbitrary values
-    nrand = 4000 if thorough else 300
+    nrand = 15000 if thorough else 300
     if nhang > 40:
         nrand = 40
-    rscripts = [random_session(rng) for _ in range(nrand)]
+    rscripts = directed_sessions() + [random_session(rng) for _ in range(nrand)]
     res = run_sessions(exe, sc, rscripts, base)
     for calls, (lines, ab) in zip(rscripts, res):
         sessions.append((calls, lines, ab))
@@ -400,7 +416,7 @@ def run(tier):
     ck.cov["distinct_nontrivial"] = ncovered
     ck.cov["state_call_pairs"] = len(pairs)
     ck.cov["state_call_pairs_executed"] = ncovered
-    ck.cov["random_sessions"] = nrand
+    ck.cov["random_sessions"] = len(rscripts)
     ck.cov["rule"] = ("one case = one (abstract session state, call) pair of the complete MisuseGen.tla graph; non-trivial = the call was "
                       "executed in that state on the ASan+UBSan build and its outcome judged by MisuseTrace; random sessions add arbitrary "
                       "ids / windows / lengths / enum values / definition parameters")
